@@ -105,14 +105,14 @@ theorem renameSym_var (tbl fin : List (String × String)) (v : String) :
   cases tbl.find? (fun e => e.1 = v) <;> rfl
 
 theorem renameSym_ter_none {tbl fin : List (String × String)} {t : String}
-    (h1 : tbl.find? (fun e => e.1 = t) = none) (h2 : fin.find? (fun e => e.1 = t) = none) :
+    (_h1 : tbl.find? (fun e => e.1 = t) = none) (h2 : fin.find? (fun e => e.1 = t) = none) :
     renameSym tbl fin (.ter t) = .ter t := by
-  simp [renameSym, h1, h2]
+  simp [renameSym, h2]
 
 theorem renameSym_ter_some {tbl fin : List (String × String)} {t : String} {e : String × String}
-    (h1 : tbl.find? (fun e => e.1 = t) = none) (h2 : fin.find? (fun e => e.1 = t) = some e) :
+    (_h1 : tbl.find? (fun e => e.1 = t) = none) (h2 : fin.find? (fun e => e.1 = t) = some e) :
     renameSym tbl fin (.ter t) = .var e.2 := by
-  simp [renameSym, h1, h2]
+  simp [renameSym, h2]
 
 /-! ### the structure of `substitute` -/
 
